@@ -363,6 +363,11 @@ def classify(v: dict) -> str | None:
 
 
 FIXED_SOURCES = [
+	# two versions of one module: every tree path exists in both, what stands there differs (a verdict remembered from the first tree must not decide the second)
+	'class A:\n\tdef __init__(self) -> None:\n\t\tself.x = 1\n\t\tself.y = 2\n\tdef setup(self) -> None:\n\t\tself.x = 1\n\t\tself.y = 2\n',
+	'class A:\n\tdef setup(self) -> None:\n\t\tself.x = 1\n\t\tself.y = 2\n\tdef __init__(self) -> None:\n\t\tself.x = 1\n\t\tself.y = 2\n',
+	'class A:\n\tdef __init__(self) -> None:\n\t\tself.x = 1\n\t\tself.y = 2\n\tdef setup(self) -> None:\n\t\tself.x = 1\n\t\tself.y = 2\n',
+	'x = a + b + c\ny = a and b and c\nz = a * b * c\nw = a << 1 << 2\nv = a - b - c + d\n',
 	# literals no node class accepts (binary / octal / imaginary): a refused resolution must not leave anything behind that later queries see
 	'x = 0b1010\ny = [0o17, 1j, 2]\nz = f(0b1, k=0o7)\n', 'a = 1\nb = 0b11\nc = a + b\n',
 	# the same statement text under paths that differ only by indices: the class of a node depends on where it stands, not on what was resolved first
